@@ -43,6 +43,25 @@ SIMPLE_TYPES = ['boolean', 'string', 'char16', 'datetime'] + \
 ALL_TYPES = SIMPLE_TYPES + ['reference']
 
 # ---------------------------------------------------------------------------
+# Implementation note: generators are plain functions ``_g_xxx(draw, ...)``
+# over prebuilt atomic strategies; the public functions wrap them with
+# st.composite.  (A tree of one_of/flatmap/builds strategies that is rebuilt
+# on every draw costs ~30 ms per object; this form costs ~1-2 ms.)
+
+def _wrap(fn, *args, **kw):
+    @st.composite
+    def strat(draw):
+        return fn(draw, *args, **kw)
+    return strat()
+
+
+_B = st.booleans()
+_TRI = st.sampled_from([None, True, False])
+tristate = _TRI
+_I10 = st.integers(0, 9)
+_I100 = st.integers(0, 99)
+
+# ---------------------------------------------------------------------------
 # names
 
 _ID_START = _string.ascii_letters + '_'
@@ -58,38 +77,51 @@ def ident(min_size=1, max_size=8):
                 max_size=max_size - 1))
 
 
+_NAME_POOL = ['A', 'b', 'Cc', 'Dd_1', 'E_e', 'Name', 'Key', 'pX',
+              'CIM_Foo', 'TST_Bar', 'InstanceID', 'P1', 'p2']
+_NAME = st.one_of(st.sampled_from(_NAME_POOL), ident(1, 8))
+
+
 def cim_name(max_size=8):
     "Identifier, mostly from a small pool so that collisions/variants happen"
-    return st.one_of(
-        st.sampled_from(['A', 'b', 'Cc', 'Dd_1', 'E_e', 'Name', 'Key', 'pX',
-                         'CIM_Foo', 'TST_Bar', 'InstanceID', 'P1', 'p2']),
-        ident(1, max_size))
+    if max_size == 8:
+        return _NAME
+    return st.one_of(st.sampled_from(_NAME_POOL), ident(1, max_size))
+
+
+_CLASSNAME = st.one_of(
+    st.sampled_from(['CIM_Foo', 'TST_Bar', 'C1', 'My_Class', 'A_b']),
+    st.builds(lambda a, b: a + '_' + b, ident(1, 4), ident(1, 5)),
+    ident(1, 8))
 
 
 def classname():
-    return st.one_of(
-        st.sampled_from(['CIM_Foo', 'TST_Bar', 'C1', 'My_Class', 'A_b']),
-        st.builds(lambda a, b: a + '_' + b, ident(1, 4), ident(1, 5)),
-        ident(1, 8))
+    return _CLASSNAME
+
+
+_NAMESPACE = st.one_of(
+    st.sampled_from(['root/cimv2', 'interop', 'root', 'Root/CIMv2',
+                     'a/b/c']),
+    st.lists(ident(1, 6), min_size=1, max_size=3).map('/'.join))
 
 
 def namespace():
-    return st.one_of(
-        st.sampled_from(['root/cimv2', 'interop', 'root', 'Root/CIMv2',
-                         'a/b/c']),
-        st.lists(ident(1, 6), min_size=1, max_size=3).map('/'.join))
+    return _NAMESPACE
+
+
+_HOST = st.one_of(
+    st.sampled_from(['myhost', 'srv1.example.com', 'Host2', 'h',
+                     'woot.com', '10.11.12.13', 'myhost:5989',
+                     '10.11.12.13:5988', 'H.Example.ORG:80']),
+    st.sampled_from(['[::1]', '[fe80::1]', '[2001:db8::7:8]',
+                     '[2001:db8::1]:5989', '[::ffff:10.1.2.3]']),
+    st.builds(lambda a, p: a + p,
+              ident(1, 8).map(lambda s: s.replace('_', 'x')),
+              st.sampled_from(['', '', ':5988', ':15989', '.example.com'])))
 
 
 def host():
-    v6 = st.sampled_from(['[::1]', '[fe80::1]', '[2001:db8::7:8]',
-                          '[2001:db8::1]:5989', '[::ffff:10.1.2.3]'])
-    name = st.sampled_from(['myhost', 'srv1.example.com', 'Host2', 'h',
-                            'woot.com', '10.11.12.13', 'myhost:5989',
-                            '10.11.12.13:5988', 'H.Example.ORG:80'])
-    gen = st.builds(lambda a, p: a + p, ident(1, 8).map(
-        lambda s: s.replace('_', 'x')),
-        st.sampled_from(['', '', ':5988', ':15989', '.example.com']))
-    return st.one_of(name, v6, gen)
+    return _HOST
 
 
 def swapcase_name(s, mask):
@@ -107,11 +139,11 @@ def swapcase_name(s, mask):
 # strings
 
 _XML_SPECIAL = ['&', '<', '>', '"', "'", ']]>', '<![CDATA[', '&amp;', '&lt;',
-                '&#13;', '\r', '\n', '\t', '\r\n', ' ', '  ', '\\', '\\n',
-                '%', '=', ',', ':', '/', '.', '\x85', ' ', 'ä',
-                '€', '\U0001F600', '\U00010000', '퟿', '',
-                '�', 'TRUE', '42', '-1', '1.5', 'NULL', '{', '}',
-                '20180911124613.128000+000', '//h/root:C.k=1', '\x7f']
+                '&#13;', '\r', '\n', '\t', '\r\n', '\r', ' ', '  ', '\\',
+                '\\n', '%', '=', ',', ':', '/', '.', '\x85', ' ',
+                'ä', '€', '\U0001F600', '\U00010000', '퟿',
+                '', '�', 'TRUE', '42', '-1', '1.5', 'NULL', '{',
+                '}', '20180911124613.128000+000', '//h/root:C.k=1', '\x7f']
 
 
 def _xml_char_ok(c):
@@ -120,13 +152,18 @@ def _xml_char_ok(c):
             0xE000 <= o <= 0xFFFD or 0x10000 <= o <= 0x10FFFF)
 
 
+_XML_CHARS = st.characters(blacklist_categories=('Cs',),
+                           blacklist_characters='￾￿').filter(
+                               _xml_char_ok)
+
+
 def xml_text(max_size=20):
     "Arbitrary text restricted to XML 1.0 Char"
-    return st.text(
-        alphabet=st.characters(blacklist_categories=('Cs',),
-                               blacklist_characters='￾￿').filter(
-                                   _xml_char_ok),
-        max_size=max_size)
+    return st.text(alphabet=_XML_CHARS, max_size=max_size)
+
+
+_ASCII_WORD = st.text(alphabet=_string.ascii_letters + _string.digits + ' ',
+                      min_size=1, max_size=6)
 
 
 def cim_string(max_size=24, no_cr=False):
@@ -137,17 +174,21 @@ def cim_string(max_size=24, no_cr=False):
     special = [s for s in _XML_SPECIAL if not (no_cr and '\r' in s)]
     pieces = st.one_of(
         st.sampled_from(special),
-        st.text(alphabet=_string.ascii_letters + _string.digits + ' ',
-                min_size=1, max_size=6),
+        st.sampled_from(special),
+        _ASCII_WORD,
         xml_text(4).filter(lambda s: not (no_cr and '\r' in s)),
     )
     return st.one_of(
         st.just(''),
         st.sampled_from(['a', ' ', ' a ', 'abc', 'Hello World']),
-        st.lists(pieces, min_size=1, max_size=5).map(''.join).filter(
-            lambda s: len(s) <= max_size),
+        st.lists(pieces, min_size=1, max_size=5).map(
+            lambda l: ''.join(l)[:max_size]),
+        st.lists(pieces, min_size=1, max_size=5).map(
+            lambda l: ''.join(l)[:max_size]),
     )
 
+
+_CIMSTR = cim_string()
 
 _XML_ILLEGAL = ['\x00', '\x01', '\x08', '\x0b', '\x0c', '\x1f', '￾',
                 '￿', '\ud800', '\udfff', '\udc00']
@@ -159,12 +200,15 @@ def cim_string_illegal(max_size=24):
     return st.lists(pieces, min_size=1, max_size=4).map(''.join)
 
 
+_CHAR16 = st.one_of(
+    st.sampled_from(['a', 'Z', ' ', '&', '<', "'", '"', '\\', '\n', '\t',
+                     '\r', 'ä', '€', '�', '0']),
+    st.characters(min_codepoint=0x20, max_codepoint=0xFFFD,
+                  blacklist_categories=('Cs',)))
+
+
 def char16():
-    return st.one_of(
-        st.sampled_from(['a', 'Z', ' ', '&', '<', "'", '"', '\\', '\n', '\t',
-                         'ä', '€', '�', '0']),
-        st.characters(min_codepoint=0x20, max_codepoint=0xFFFD,
-                      blacklist_categories=('Cs',)))
+    return _CHAR16
 
 
 # ---------------------------------------------------------------------------
@@ -176,6 +220,9 @@ def cim_int(type_):
     if lo < 0:
         edge.append(-1)
     return st.one_of(st.sampled_from(edge), st.integers(lo, hi))
+
+
+_INT = {t: cim_int(t) for t in INT_TYPES}
 
 
 def _to_f32(x):
@@ -205,36 +252,50 @@ def cim_real(type_, allow_nan=True, allow_inf=True):
                   allow_infinity=allow_inf))
 
 
+_REAL = {(t, n): cim_real(t, allow_nan=n) for t in REAL_TYPES
+         for n in (True, False)}
+
+_TS_ATOMS = (
+    st.one_of(st.sampled_from([1, 2, 1970, 2000, 2020, 2024, 9999]),
+              st.integers(1, 9999)),
+    st.integers(1, 12),
+    st.one_of(st.sampled_from([1, 28, 29, 30, 31]), st.integers(1, 31)),
+    st.integers(0, 23), st.integers(0, 59), st.integers(0, 59),
+    st.one_of(st.sampled_from([0, 1, 999999, 128000, 500000]),
+              st.integers(0, 999999)),
+    st.one_of(st.sampled_from([0, 60, -60, 720, -720, 721, -721, 999,
+                               -999, 1, -1]),
+              st.integers(-999, 999)))
+
+
+def _g_timestamp(draw, offsets=True):
+    import calendar
+    y, mo, d, h, mi, s, us = [draw(a) for a in _TS_ATOMS[:7]]
+    off = draw(_TS_ATOMS[7]) if offsets else 0
+    d = min(d, calendar.monthrange(y, mo)[1])
+    return ('ts', y, mo, d, h, mi, s, us, off)
+
+
 def timestamp(offsets=True):
     "('ts', y, mo, d, h, mi, s, us, offset_minutes)"
-    def mk(y, mo, d, h, mi, s, us, off):
-        # clip day to the month
-        import calendar
-        d = min(d, calendar.monthrange(y, mo)[1])
-        return ('ts', y, mo, d, h, mi, s, us, off)
-    return st.builds(
-        mk,
-        st.one_of(st.sampled_from([1, 2, 1970, 2000, 2020, 2024, 9999]),
-                  st.integers(1, 9999)),
-        st.integers(1, 12),
-        st.one_of(st.sampled_from([1, 28, 29, 30, 31]), st.integers(1, 31)),
-        st.integers(0, 23), st.integers(0, 59), st.integers(0, 59),
-        st.one_of(st.sampled_from([0, 1, 999999, 128000, 500000]),
-                  st.integers(0, 999999)),
-        st.one_of(st.sampled_from([0, 60, -60, 720, -720, 721, -721, 999,
-                                   -999, 1, -1]),
-                  st.integers(-999, 999)) if offsets else st.just(0))
+    return _wrap(_g_timestamp, offsets)
+
+
+_IV_ATOMS = (
+    st.one_of(st.sampled_from([0, 1, 99999999, 99999998, 12345678]),
+              st.integers(0, 99999999)),
+    st.one_of(st.sampled_from([0, 1, 86399, 3600, 3599, 60, 59]),
+              st.integers(0, 86399)),
+    st.one_of(st.sampled_from([0, 1, 999999]), st.integers(0, 999999)))
+
+
+def _g_interval(draw):
+    return ('iv',) + tuple(draw(a) for a in _IV_ATOMS)
 
 
 def interval():
     "('iv', days, seconds, microseconds)"
-    return st.builds(
-        lambda d, s, us: ('iv', d, s, us),
-        st.one_of(st.sampled_from([0, 1, 99999999, 99999998, 12345678]),
-                  st.integers(0, 99999999)),
-        st.one_of(st.sampled_from([0, 1, 86399, 3600, 3599, 60, 59]),
-                  st.integers(0, 86399)),
-        st.one_of(st.sampled_from([0, 1, 999999]), st.integers(0, 999999)))
+    return _wrap(_g_interval)
 
 
 def _aster(s, first):
@@ -266,15 +327,18 @@ def dtstr_from(rec, precision):
     return _aster(base, precision)
 
 
+def _g_datetime(draw):
+    k = draw(_I10)
+    rec = _g_timestamp(draw) if draw(_B) else _g_interval(draw)
+    if k < 6:
+        return rec
+    precs = TS_PRECISIONS if rec[0] == 'ts' else IV_PRECISIONS_ALL
+    return ('dtstr', dtstr_from(rec, precs[draw(_I100) % len(precs)]))
+
+
 def datetime_scalar():
     "ts | iv | dtstr (with asterisks)"
-    def with_prec(rec, p):
-        precs = TS_PRECISIONS if rec[0] == 'ts' else IV_PRECISIONS_ALL
-        return ('dtstr', dtstr_from(rec, precs[p % len(precs)]))
-    return st.one_of(
-        timestamp(), interval(),
-        st.builds(with_prec, st.one_of(timestamp(), interval()),
-                  st.integers(0, 50)))
+    return _wrap(_g_datetime)
 
 
 def build_datetime(rec):
@@ -293,22 +357,26 @@ def build_datetime(rec):
 # ---------------------------------------------------------------------------
 # typed values
 
-def scalar(type_, ref_depth=1, strings=None, allow_nan=True):
+def _g_scalar(draw, type_, ref_depth=1, strings=None, allow_nan=True):
     if type_ == 'boolean':
-        return st.booleans()
+        return draw(_B)
     if type_ == 'string':
-        return strings if strings is not None else cim_string()
+        return draw(strings if strings is not None else _CIMSTR)
     if type_ == 'char16':
-        return char16()
+        return draw(_CHAR16)
     if type_ == 'datetime':
-        return datetime_scalar()
+        return _g_datetime(draw)
     if type_ in INT_TYPES:
-        return cim_int(type_)
+        return draw(_INT[type_])
     if type_ in REAL_TYPES:
-        return cim_real(type_, allow_nan=allow_nan)
+        return draw(_REAL[(type_, bool(allow_nan))])
     if type_ == 'reference':
-        return instance_path(depth=ref_depth)
+        return _g_ipath(draw, depth=ref_depth, strings=strings)
     raise ValueError(type_)
+
+
+def scalar(type_, ref_depth=1, strings=None, allow_nan=True):
+    return _wrap(_g_scalar, type_, ref_depth, strings, allow_nan)
 
 
 def build_scalar(type_, v):
@@ -344,25 +412,37 @@ def array_of(elem, max_size=4, nulls=True):
     return st.lists(e, max_size=max_size)
 
 
+_ARRLEN = st.sampled_from([0, 1, 1, 2, 2, 3, 4])
+
+
+def _g_typed_value(draw, types=None, arrays=True, nulls=True, ref_depth=1,
+                   strings=None, allow_nan=True):
+    types = types or ALL_TYPES
+    t = types[draw(_I100) % len(types)]
+    shape = draw(_I10)
+    if nulls and shape == 0:
+        return (t, False, None)
+    if arrays and nulls and shape == 1:
+        return (t, True, None)
+    if arrays and shape in (2, 3, 4):
+        n = draw(_ARRLEN)
+        v = []
+        for _ in range(n):
+            if nulls and draw(_I10) < 2:
+                v.append(None)
+            else:
+                v.append(_g_scalar(draw, t, ref_depth, strings, allow_nan))
+        return (t, True, v)
+    return (t, False, _g_scalar(draw, t, ref_depth, strings, allow_nan))
+
+
 def typed_value(types=None, arrays=True, nulls=True, ref_depth=1,
                 strings=None, allow_nan=True):
     """
     (type, is_array, value): value None | scalar | list
     """
-    types = types or ALL_TYPES
-
-    def for_type(t):
-        sc = scalar(t, ref_depth=ref_depth, strings=strings,
-                    allow_nan=allow_nan)
-        opts = [sc.map(lambda v: (t, False, v))]
-        if nulls:
-            opts.append(st.just((t, False, None)))
-        if arrays:
-            opts.append(array_of(sc).map(lambda v: (t, True, v)))
-            if nulls:
-                opts.append(st.just((t, True, None)))
-        return st.one_of(opts)
-    return st.sampled_from(types).flatmap(for_type)
+    return _wrap(_g_typed_value, types, arrays, nulls, ref_depth, strings,
+                 allow_nan)
 
 
 # ---------------------------------------------------------------------------
@@ -370,6 +450,22 @@ def typed_value(types=None, arrays=True, nulls=True, ref_depth=1,
 
 KEY_TYPES = ['string', 'string', 'boolean', 'char16', 'datetime', 'uint8',
              'sint32', 'uint64', 'real32', 'real64', 'int', 'float']
+_PLAININT = st.integers(-2 ** 63, 2 ** 64 - 1)
+
+
+def _g_keyvalue(draw, depth, key_types=None, strings=None, allow_nan=False):
+    kts = list(key_types or KEY_TYPES)
+    if depth > 0:
+        kts = kts + ['reference', 'reference']
+    t = kts[draw(_I100) % len(kts)]
+    if t == 'int':
+        return (t, draw(_PLAININT))
+    if t == 'float':
+        return (t, draw(_REAL[('real64', bool(allow_nan))]))
+    if t == 'reference':
+        return (t, _g_ipath(draw, depth=depth - 1, key_types=key_types,
+                            strings=strings))
+    return (t, _g_scalar(draw, t, 0, strings, allow_nan))
 
 
 def keyvalue(depth, key_types=None, strings=None, allow_nan=False):
@@ -377,32 +473,61 @@ def keyvalue(depth, key_types=None, strings=None, allow_nan=False):
     (ktype, v): ktype in KEY_TYPES or 'reference'; 'int'/'float' are plain
     Python numbers (untyped keybindings).
     """
-    kts = list(key_types or KEY_TYPES)
+    return _wrap(_g_keyvalue, depth, key_types, strings, allow_nan)
 
-    def for_type(t):
-        if t == 'int':
-            return st.integers(-2 ** 63, 2 ** 64 - 1).map(lambda v: (t, v))
-        if t == 'float':
-            return cim_real('real64', allow_nan=allow_nan).map(
-                lambda v: (t, v))
-        if t == 'reference':
-            return instance_path(depth=depth - 1, key_types=key_types,
-                                 strings=strings).map(lambda v: (t, v))
-        return scalar(t, strings=strings, allow_nan=allow_nan).map(
-            lambda v: (t, v))
-    if depth > 0:
-        kts = kts + ['reference', 'reference']
-    return st.sampled_from(kts).flatmap(for_type)
+
+def _uniq_names(names):
+    "make names case-insensitively unique by appending a suffix"
+    seen = set()
+    out = []
+    for n in names:
+        m = n
+        i = 1
+        while m.lower() in seen:
+            i += 1
+            m = '%s%d' % (n, i)
+        seen.add(m.lower())
+        out.append(m)
+    return out
+
+
+def _g_keybindings(draw, depth=1, min_size=1, max_size=3, key_types=None,
+                   strings=None):
+    n = min_size + draw(_I100) % (max_size - min_size + 1)
+    names = _uniq_names([draw(_NAME) for _ in range(n)])
+    out = []
+    for name in names:
+        kt, v = _g_keyvalue(draw, depth, key_types, strings)
+        out.append((name, kt, v))
+    return out
 
 
 def keybindings(depth=1, min_size=1, max_size=3, key_types=None,
                 strings=None):
     "list of (name, ktype, value) with case-insensitively unique names"
-    return st.lists(
-        st.tuples(cim_name(), keyvalue(depth, key_types, strings)),
-        min_size=min_size, max_size=max_size,
-        unique_by=lambda kv: kv[0].lower()).map(
-            lambda l: [(n, kt, v) for n, (kt, v) in l])
+    return _wrap(_g_keybindings, depth, min_size, max_size, key_types,
+                 strings)
+
+
+def _g_opt(draw, strat, flag):
+    "flag: None -> sometimes, True -> always, False -> never"
+    if flag is False:
+        return None
+    if flag is True or draw(_B):
+        return draw(strat)
+    return None
+
+
+def _g_ipath(draw, depth=1, with_ns=None, with_host=None, key_types=None,
+             strings=None, min_keys=1):
+    cn = draw(_CLASSNAME)
+    keys = _g_keybindings(draw, depth, min_keys, 3, key_types, strings)
+    ns = _g_opt(draw, _NAMESPACE, with_ns)
+    h = _g_opt(draw, _HOST, with_host)
+    if ns is None:
+        h = None
+    return {'k': 'ipath', 'classname': cn, 'keys': keys,
+            'namespace': ns, 'host': h}
 
 
 def instance_path(depth=1, with_ns=None, with_host=None, key_types=None,
@@ -411,42 +536,21 @@ def instance_path(depth=1, with_ns=None, with_host=None, key_types=None,
     {'k':'ipath','classname','keys':[(name, ktype, v)],'namespace','host'}
     host only together with a namespace.
     """
-    def mk(cn, keys, ns, h):
-        if ns is None:
-            h = None
-        return {'k': 'ipath', 'classname': cn, 'keys': keys,
-                'namespace': ns, 'host': h}
-    ns = st.one_of(st.none(), namespace())
-    if with_ns is True:
-        ns = namespace()
-    elif with_ns is False:
-        ns = st.none()
-    h = st.one_of(st.none(), host())
-    if with_host is True:
-        h = host()
-    elif with_host is False:
-        h = st.none()
-    return st.builds(mk, classname(),
-                     keybindings(depth, min_keys, 3, key_types, strings),
-                     ns, h)
+    return _wrap(_g_ipath, depth, with_ns, with_host, key_types, strings,
+                 min_keys)
+
+
+def _g_cpath(draw, with_ns=None, with_host=None):
+    cn = draw(_CLASSNAME)
+    ns = _g_opt(draw, _NAMESPACE, with_ns)
+    h = _g_opt(draw, _HOST, with_host)
+    if ns is None:
+        h = None
+    return {'k': 'cpath', 'classname': cn, 'namespace': ns, 'host': h}
 
 
 def class_path(with_ns=None, with_host=None):
-    def mk(cn, ns, h):
-        if ns is None:
-            h = None
-        return {'k': 'cpath', 'classname': cn, 'namespace': ns, 'host': h}
-    ns = st.one_of(st.none(), namespace())
-    if with_ns is True:
-        ns = namespace()
-    elif with_ns is False:
-        ns = st.none()
-    h = st.one_of(st.none(), host())
-    if with_host is True:
-        h = host()
-    elif with_host is False:
-        h = st.none()
-    return st.builds(mk, classname(), ns, h)
+    return _wrap(_g_cpath, with_ns, with_host)
 
 
 def build_keyvalue(kt, v):
@@ -464,59 +568,113 @@ def build_keyvalue(kt, v):
 
 QUAL_TYPES = ['boolean', 'string', 'char16', 'datetime'] + \
     sorted(INT_TYPES) + sorted(REAL_TYPES)
-tristate = st.sampled_from([None, True, False])
+_QNAME = st.one_of(st.sampled_from(['Description', 'Key', 'MaxLen',
+                                    'Values', 'ValueMap', 'Q1']), _NAME)
+
+
+def _g_qualifier(draw, strings=None, allow_nan=True, flavors=True):
+    name = draw(_QNAME)
+    t, is_arr, v = _g_typed_value(draw, QUAL_TYPES, strings=strings,
+                                  allow_nan=allow_nan)
+    fl = [draw(_TRI) if flavors else None for _ in range(5)]
+    return {'k': 'qual', 'name': name, 'type': t, 'value': v,
+            'is_array': is_arr,
+            'propagated': fl[0], 'overridable': fl[1], 'tosubclass': fl[2],
+            'toinstance': fl[3], 'translatable': fl[4]}
 
 
 def qualifier(strings=None, allow_nan=True, flavors=True):
-    def mk(name, tv, prop, ov, tos, toi, tr):
-        t, is_arr, v = tv
-        return {'k': 'qual', 'name': name, 'type': t, 'value': v,
-                'is_array': is_arr,
-                'propagated': prop, 'overridable': ov, 'tosubclass': tos,
-                'toinstance': toi, 'translatable': tr}
-    fl = tristate if flavors else st.none()
-    return st.builds(
-        mk, st.one_of(st.sampled_from(['Description', 'Key', 'MaxLen',
-                                       'Values', 'ValueMap', 'Q1']),
-                      cim_name()),
-        typed_value(QUAL_TYPES, strings=strings, allow_nan=allow_nan),
-        fl, fl, fl, fl, fl)
+    return _wrap(_g_qualifier, strings, allow_nan, flavors)
+
+
+_QCOUNT = st.sampled_from([0, 0, 0, 1, 1, 2, 3])
+
+
+def _g_qualifiers(draw, max_size=2, **kw):
+    n = min(draw(_QCOUNT), max_size)
+    qs = [_g_qualifier(draw, **kw) for _ in range(n)]
+    for q, name in zip(qs, _uniq_names([q['name'] for q in qs])):
+        q['name'] = name
+    return qs
 
 
 def qualifiers(max_size=2, **kw):
-    return st.lists(qualifier(**kw), max_size=max_size,
-                    unique_by=lambda q: q['name'].lower())
+    return _wrap(_g_qualifiers, max_size, **kw)
 
 
 SCOPES = ['CLASS', 'ASSOCIATION', 'INDICATION', 'PROPERTY', 'REFERENCE',
           'METHOD', 'PARAMETER', 'ANY']
+_OPT_SIZE = st.sampled_from([None, None, 1, 2, 5, 9])
+
+
+def _g_qualdecl(draw, strings=None, allow_nan=True):
+    name = draw(_NAME)
+    t, is_arr, v = _g_typed_value(draw, QUAL_TYPES, strings=strings,
+                                  allow_nan=allow_nan)
+    asz = draw(_OPT_SIZE)
+    if draw(_I10) < 3:
+        scopes = None
+    else:
+        scopes = sorted((s, draw(_B)) for s in SCOPES if draw(_I10) < 4)
+    fl = [draw(_TRI) for _ in range(4)]
+    return {'k': 'qualdecl', 'name': name, 'type': t, 'value': v,
+            'is_array': is_arr,
+            'array_size': asz if is_arr else None,
+            'scopes': scopes, 'overridable': fl[0], 'tosubclass': fl[1],
+            'toinstance': fl[2], 'translatable': fl[3]}
 
 
 def qualifier_declaration(strings=None, allow_nan=True):
-    def mk(name, tv, asz, scopes, ov, tos, toi, tr):
-        t, is_arr, v = tv
-        return {'k': 'qualdecl', 'name': name, 'type': t, 'value': v,
-                'is_array': is_arr,
-                'array_size': asz if is_arr else None,
-                'scopes': scopes, 'overridable': ov, 'tosubclass': tos,
-                'toinstance': toi, 'translatable': tr}
-    return st.builds(
-        mk, cim_name(),
-        typed_value(QUAL_TYPES, strings=strings, allow_nan=allow_nan),
-        st.one_of(st.none(), st.integers(1, 9)),
-        st.one_of(st.none(),
-                  st.dictionaries(st.sampled_from(SCOPES), st.booleans(),
-                                  max_size=4).map(
-                                      lambda d: sorted(d.items()))),
-        tristate, tristate, tristate, tristate)
+    return _wrap(_g_qualdecl, strings, allow_nan)
+
+
+def _g_embedded_value(draw, depth, kind, strings=None, allow_nan=True):
+    if kind == 'instance' or draw(_B):
+        return _g_instance(draw, depth=depth - 1, with_path=False,
+                           strings=strings, allow_nan=allow_nan)
+    return _g_class(draw, depth=depth - 1, small=True, strings=strings,
+                    allow_nan=allow_nan)
 
 
 def embedded_value(depth, kind):
     "scalar embedded object recipe"
-    if kind == 'instance':
-        return cim_instance(depth=depth - 1, with_path=False)
-    return st.one_of(cim_instance(depth=depth - 1, with_path=False),
-                     cim_class(depth=depth - 1, small=True))
+    return _wrap(_g_embedded_value, depth, kind)
+
+
+def _g_property(draw, depth=0, decl=None, strings=None, allow_nan=True,
+                quals=True, ref_depth=1):
+    name = draw(_NAME)
+    co = draw(_CLASSNAME) if draw(_I10) < 3 else None
+    prop = draw(_TRI)
+    qs = _g_qualifiers(draw, strings=strings, allow_nan=allow_nan) \
+        if quals else []
+    if depth > 0 and draw(_I10) < 3:
+        kind = 'instance' if draw(_B) else 'object'
+        is_arr = draw(_B)
+        n = 1 + draw(_B)
+        vals = [_g_embedded_value(draw, depth, kind, strings, allow_nan)
+                for _ in range(n)]
+        if is_arr and draw(_I10) < 2:
+            vals.insert(0, None)
+        v = vals if is_arr else vals[0]
+        return {'k': 'prop', 'name': name, 'type': 'string', 'value': v,
+                'is_array': is_arr, 'array_size': None,
+                'reference_class': None, 'embedded_object': kind,
+                'class_origin': co, 'propagated': prop, 'qualifiers': qs}
+    while True:
+        t, is_arr, v = _g_typed_value(draw, ALL_TYPES, strings=strings,
+                                      allow_nan=allow_nan,
+                                      ref_depth=ref_depth)
+        if not (t == 'reference' and is_arr):
+            break
+    asz = draw(_OPT_SIZE)
+    refcls = draw(_CLASSNAME) if draw(_B) else None
+    return {'k': 'prop', 'name': name, 'type': t, 'value': v,
+            'is_array': is_arr,
+            'array_size': asz if is_arr else None,
+            'reference_class': refcls if t == 'reference' else None,
+            'embedded_object': None,
+            'class_origin': co, 'propagated': prop, 'qualifiers': qs}
 
 
 def cim_property(depth=0, decl=None, strings=None, allow_nan=True,
@@ -525,83 +683,105 @@ def cim_property(depth=0, decl=None, strings=None, allow_nan=True,
     {'k':'prop', name, type, value, is_array, array_size, reference_class,
      embedded_object, class_origin, propagated, qualifiers}
     """
-    def mk(name, tv, asz, refcls, co, prop, qs):
-        t, is_arr, v = tv
-        return {'k': 'prop', 'name': name, 'type': t, 'value': v,
-                'is_array': is_arr,
-                'array_size': asz if is_arr else None,
-                'reference_class': refcls if t == 'reference' else None,
-                'embedded_object': None,
-                'class_origin': co, 'propagated': prop, 'qualifiers': qs}
-    # references cannot be arrays in properties
-    def tv_filter(tv):
-        return not (tv[0] == 'reference' and tv[1])
-    base = st.builds(
-        mk, cim_name(),
-        typed_value(ALL_TYPES, strings=strings, allow_nan=allow_nan,
-                    ref_depth=ref_depth).filter(tv_filter),
-        st.one_of(st.none(), st.integers(1, 9)),
-        st.one_of(st.none(), classname()),
-        st.one_of(st.none(), classname()),
-        tristate,
-        qualifiers(strings=strings, allow_nan=allow_nan) if quals
-        else st.just([]))
-    if depth <= 0:
-        return base
+    return _wrap(_g_property, depth, decl, strings, allow_nan, quals,
+                 ref_depth)
 
-    def mk_emb(name, kind, is_arr, vals, co, prop, qs):
-        if is_arr:
-            v = vals
-        else:
-            v = vals[0] if vals else None
-        return {'k': 'prop', 'name': name, 'type': 'string', 'value': v,
-                'is_array': is_arr, 'array_size': None,
-                'reference_class': None, 'embedded_object': kind,
-                'class_origin': co, 'propagated': prop, 'qualifiers': qs}
-    emb = st.sampled_from(['instance', 'object']).flatmap(
-        lambda kind: st.builds(
-            mk_emb, cim_name(), st.just(kind), st.booleans(),
-            st.lists(embedded_value(depth, kind), min_size=1, max_size=2),
-            st.one_of(st.none(), classname()), tristate,
-            qualifiers(strings=strings, allow_nan=allow_nan) if quals
-            else st.just([])))
-    return st.one_of(base, base, emb)
+
+_PCOUNT = st.sampled_from([0, 1, 1, 2, 2, 3, 4])
+
+
+def _g_properties(draw, depth=0, max_size=3, **kw):
+    n = min(draw(_PCOUNT), max_size)
+    ps = [_g_property(draw, depth=depth, **kw) for _ in range(n)]
+    for p, name in zip(ps, _uniq_names([p['name'] for p in ps])):
+        p['name'] = name
+    return ps
 
 
 def properties(depth=0, max_size=3, **kw):
-    return st.lists(cim_property(depth=depth, **kw), max_size=max_size,
-                    unique_by=lambda p: p['name'].lower())
+    return _wrap(_g_properties, depth, max_size, **kw)
+
+
+def _g_parameter(draw, strings=None, allow_nan=True, quals=True,
+                 with_value=False):
+    name = draw(_NAME)
+    t, is_arr, v = _g_typed_value(draw, ALL_TYPES, strings=strings,
+                                  allow_nan=allow_nan)
+    asz = draw(_OPT_SIZE)
+    refcls = draw(_CLASSNAME) if draw(_B) else None
+    qs = _g_qualifiers(draw, strings=strings, allow_nan=allow_nan) \
+        if quals else []
+    return {'k': 'param', 'name': name, 'type': t,
+            'value': v if with_value else None,
+            'is_array': is_arr,
+            'array_size': asz if is_arr else None,
+            'reference_class': refcls if t == 'reference' else None,
+            'embedded_object': None, 'qualifiers': qs}
 
 
 def cim_parameter(strings=None, allow_nan=True, quals=True, with_value=False):
-    def mk(name, tv, asz, refcls, qs):
-        t, is_arr, v = tv
-        return {'k': 'param', 'name': name, 'type': t,
-                'value': v if with_value else None,
-                'is_array': is_arr,
-                'array_size': asz if is_arr else None,
-                'reference_class': refcls if t == 'reference' else None,
-                'embedded_object': None, 'qualifiers': qs}
-    return st.builds(
-        mk, cim_name(),
-        typed_value(ALL_TYPES, strings=strings, allow_nan=allow_nan),
-        st.one_of(st.none(), st.integers(1, 9)),
-        st.one_of(st.none(), classname()),
-        qualifiers(strings=strings, allow_nan=allow_nan) if quals
-        else st.just([]))
+    return _wrap(_g_parameter, strings, allow_nan, quals, with_value)
+
+
+def _g_method(draw, strings=None, allow_nan=True):
+    name = draw(_NAME)
+    rt = SIMPLE_TYPES[draw(_I100) % len(SIMPLE_TYPES)]
+    n = min(draw(_PCOUNT), 3)
+    params = [_g_parameter(draw, strings, allow_nan) for _ in range(n)]
+    for p, pn in zip(params, _uniq_names([p['name'] for p in params])):
+        p['name'] = pn
+    co = draw(_CLASSNAME) if draw(_I10) < 3 else None
+    return {'k': 'meth', 'name': name, 'return_type': rt,
+            'parameters': params, 'class_origin': co,
+            'propagated': draw(_TRI),
+            'qualifiers': _g_qualifiers(draw, strings=strings,
+                                        allow_nan=allow_nan)}
 
 
 def cim_method(strings=None, allow_nan=True):
-    def mk(name, rt, params, co, prop, qs):
-        return {'k': 'meth', 'name': name, 'return_type': rt,
-                'parameters': params, 'class_origin': co, 'propagated': prop,
-                'qualifiers': qs}
-    return st.builds(
-        mk, cim_name(), st.sampled_from(SIMPLE_TYPES),
-        st.lists(cim_parameter(strings=strings, allow_nan=allow_nan),
-                 max_size=3, unique_by=lambda p: p['name'].lower()),
-        st.one_of(st.none(), classname()), tristate,
-        qualifiers(strings=strings, allow_nan=allow_nan))
+    return _wrap(_g_method, strings, allow_nan)
+
+
+def _g_instance(draw, depth=0, with_path=None, strings=None, allow_nan=True,
+                path_kinds=('none', 'keys', 'ns', 'host')):
+    cn = draw(_CLASSNAME)
+    props = _g_properties(draw, depth=depth, strings=strings,
+                          allow_nan=allow_nan)
+    qs = _g_qualifiers(draw, max_size=1, strings=strings,
+                       allow_nan=allow_nan)
+    if with_path is False:
+        pk = 'none'
+    else:
+        kinds = [k for k in path_kinds if k != 'none'] if with_path is True \
+            else list(path_kinds)
+        pk = kinds[draw(_I100) % len(kinds)]
+    if pk == 'none':
+        p = None
+    else:
+        p = _g_ipath(draw, depth=1, strings=strings)
+        p['classname'] = cn
+        # key names must not collide with property names that carry other
+        # values (pywbem keeps such keybindings and properties in sync; a
+        # real instance has equal values there)
+        pnames = set(pr['name'].lower() for pr in props)
+        keys = []
+        for n, kt, v in p['keys']:
+            while n.lower() in pnames:
+                n = 'k_' + n
+            pnames.add(n.lower())
+            keys.append((n, kt, v))
+        p['keys'] = keys
+        if pk == 'keys':
+            p['namespace'] = None
+            p['host'] = None
+        elif pk == 'ns':
+            p['namespace'] = p['namespace'] or 'root/cimv2'
+            p['host'] = None
+        else:
+            p['namespace'] = p['namespace'] or 'root/cimv2'
+            p['host'] = p['host'] or 'myhost'
+    return {'k': 'inst', 'classname': cn, 'properties': props,
+            'qualifiers': qs, 'path': p}
 
 
 def cim_instance(depth=0, with_path=None, strings=None, allow_nan=True,
@@ -610,48 +790,27 @@ def cim_instance(depth=0, with_path=None, strings=None, allow_nan=True,
     {'k':'inst', classname, properties, qualifiers, path}
     path kinds: None | keys only | with namespace | with host+namespace
     """
-    def mk(cn, props, qs, pk, path):
-        if pk == 'none':
-            p = None
-        else:
-            p = dict(path)
-            p['classname'] = cn
-            if pk == 'keys':
-                p['namespace'] = None
-                p['host'] = None
-            elif pk == 'ns':
-                p['namespace'] = p['namespace'] or 'root/cimv2'
-                p['host'] = None
-            else:
-                p['namespace'] = p['namespace'] or 'root/cimv2'
-                p['host'] = p['host'] or 'myhost'
-        return {'k': 'inst', 'classname': cn, 'properties': props,
-                'qualifiers': qs, 'path': p}
-    if with_path is False:
-        pk = st.just('none')
-    elif with_path is True:
-        pk = st.sampled_from([k for k in path_kinds if k != 'none'])
-    else:
-        pk = st.sampled_from(list(path_kinds))
-    return st.builds(
-        mk, classname(),
-        properties(depth=depth, strings=strings, allow_nan=allow_nan),
-        qualifiers(max_size=1, strings=strings, allow_nan=allow_nan),
-        pk, instance_path(depth=1, strings=strings))
+    return _wrap(_g_instance, depth, with_path, strings, allow_nan,
+                 path_kinds)
+
+
+def _g_class(draw, depth=0, small=False, strings=None, allow_nan=True):
+    cn = draw(_CLASSNAME)
+    sup = draw(_CLASSNAME) if draw(_B) else None
+    props = _g_properties(draw, depth=depth, max_size=2 if small else 3,
+                          strings=strings, allow_nan=allow_nan)
+    n = min(draw(_PCOUNT), 1 if small else 2)
+    meths = [_g_method(draw, strings, allow_nan) for _ in range(n)]
+    for m, mn in zip(meths, _uniq_names([m['name'] for m in meths])):
+        m['name'] = mn
+    return {'k': 'class', 'classname': cn, 'superclass': sup,
+            'properties': props, 'methods': meths,
+            'qualifiers': _g_qualifiers(draw, strings=strings,
+                                        allow_nan=allow_nan)}
 
 
 def cim_class(depth=0, small=False, strings=None, allow_nan=True):
-    def mk(cn, sup, props, meths, qs):
-        return {'k': 'class', 'classname': cn, 'superclass': sup,
-                'properties': props, 'methods': meths, 'qualifiers': qs}
-    return st.builds(
-        mk, classname(), st.one_of(st.none(), classname()),
-        properties(depth=depth, max_size=2 if small else 3, strings=strings,
-                   allow_nan=allow_nan),
-        st.lists(cim_method(strings=strings, allow_nan=allow_nan),
-                 max_size=1 if small else 2,
-                 unique_by=lambda m: m['name'].lower()),
-        qualifiers(strings=strings, allow_nan=allow_nan))
+    return _wrap(_g_class, depth, small, strings, allow_nan)
 
 
 # ---------------------------------------------------------------------------
